@@ -27,6 +27,9 @@ type c21Case struct {
 	Cycles int `json:"cycles,omitempty"`
 	// Junk: the trigger write to NRx4 also has the unused bits 3-5 set (38): only bits 0-2 are frequency bits
 	Junk bool `json:"junk_bits,omitempty"`
+	// StaleLow: NRx3 is written (5A) before sound is powered off and on again and NOT afterwards; the channel is
+	// started through NRx4 alone: powering off clears the frequency registers, so the frequency is the high bits only
+	StaleLow bool `json:"stale_low,omitempty"`
 }
 
 func c21Setup(ch, f int, silent ...bool) *machine.M {
@@ -74,7 +77,29 @@ func c21Check(l *explore.Local, _ struct{}, c c21Case) *explore.Fail {
 		return c21LFSR(l, c)
 	}
 	var m *machine.M
-	if c.Idle > 0 {
+	if c.StaleLow {
+		m = machine.New(machine.ROMOnly(), machine.Opts{})
+		w := m.Map.Write
+		w(0xff26, 0x80)
+		for _, a := range []uint16{0xff13, 0xff18, 0xff1d} {
+			w(a, 0x5a)
+		}
+		w(0xff26, 0x00)
+		w(0xff26, 0x80)
+		hi := uint8(c.F >> 8)
+		switch c.Ch {
+		case 1:
+			w(0xff12, 0xf0)
+			w(0xff14, 0x80|hi)
+		case 2:
+			w(0xff17, 0xf0)
+			w(0xff19, 0x80|hi)
+		case 3:
+			w(0xff1a, 0x80)
+			w(0xff1c, 0x20)
+			w(0xff1e, 0x80|hi)
+		}
+	} else if c.Idle > 0 {
 		m = machine.New(machine.ROMOnly(), machine.Opts{})
 		for i := 0; i < c.Idle; i++ {
 			m.A.EndMachineCycle()
@@ -454,6 +479,14 @@ func init() {
 					}
 					if !yield(c21Case{Ch: 4, F: v, Steps: 6, Silent: true}) {
 						return
+					}
+				}
+				// frequency low byte written only before a power cycle: it must be gone afterwards
+				for ch := 1; ch <= 3; ch++ {
+					for _, f := range []int{0x000, 0x300, 0x700} {
+						if !yield(c21Case{Ch: ch, F: f, Steps: 12, StaleLow: true}) {
+							return
+						}
 					}
 				}
 				// the trigger written with the unused bits 3-5 of NRx4 set
